@@ -432,6 +432,8 @@ def entry_cases(chk, insts_by, only=None):
                 entries += ENTRY_PSD
             if mode in ("cpat", "rpat1"):
                 entries = ["matmul", "rmatmul", "t_matmul"] + (["solve", "solve_left", "inv_quad", "logdet"] if inst.psd else [])
+            if inst.light:
+                entries = ["matmul", "to_dense"] + (["solve", "inv_quad_logdet"] if inst.psd else [])
             for entry in entries:
                 if entry in ("diagonal",) and n != m:
                     continue
